@@ -22,11 +22,11 @@ TIMEOUT = 3000
 RULE = ("port trees: 1..24 names per table over {a b c} + digits (lengths 1..3, anagrams and shared prefixes "
         "frequent), leaves with/without ':types' (also two leaves with the same name and different types), "
         "'#N' enumerations in about a third of the tables (such tables take the linear scan, the others the "
-        "perfect hash when the library finds one), sub-trees 'name/' and 'name#N/' nested up to 3 levels, "
+        "perfect hash when the library finds one), sub-trees 'name/' and 'name#N/' nested up to 4 levels, "
         "default handler on about a quarter of the tables, an occasional literal multi-component name (a/b); "
         "addresses derived from a randomly chosen port path: exact, one character appended / removed / changed, "
         "index N-1 / N / N+1 / leading zeros, '/' dropped or doubled, leading '/' dropped, plus random short "
-        "addresses; type strings admitted (equal to an alternative) or not admitted (not an extension of any). "
+        "addresses; type strings equal to an alternative, a proper extension of one (the text leaves that verdict open: the two runs must then agree), with the first tag changed, with the last tag dropped, or unrelated. "
         "Each case is dispatched twice (with and without location buffer).  Non-trivial = the table of the "
         "addressed port has >= 3 ports and at least one callback was invoked or a near-miss address was used.")
 TRUSTED = ["harness/h_C04.cpp: Ports subclass filling the public `ports` vector and calling refreshMagic(); callbacks "
@@ -119,8 +119,12 @@ def first_number(m):
         e += 1
     return int(m[j:e]) if e > j else 0
 
-def expected(t, addr, ty):
-    """events a root dispatch must produce: (tid, idx, msg offset, obj, loc)"""
+def expected(t, addr, ty, chosen=frozenset()):
+    """events a root dispatch must produce: (tid, idx, msg offset, obj, loc).
+    Where the type string is a proper extension of an alternative the property
+    text leaves the verdict open ("equal to or an extension of"): such a port
+    is expected iff the run WITH location buffer invoked it (chosen); the run
+    without buffer must then do the same."""
     full = addr
     off0 = 1 if addr[:1] == b"/" else 0
     out = []
@@ -136,8 +140,8 @@ def expected(t, addr, ty):
             st = P5.spec_types(ast, ty)
             if st == "mustnot":
                 continue
-            if st == "free":
-                raise ValueError("generator produced an extension type string")
+            if st == "free" and (t.tid, i, off, obj) not in chosen:
+                continue
             hit = True
             end = min(ends)
             loc = b"/" + full[off0:off + end]
@@ -165,9 +169,9 @@ def parse_run(s, withloc):
                 dfl.append((int(head[1:]), int(r[0]), int(r[1]), r[2]))
             else:
                 tid, i = head.split(":")
-                evs.append((int(tid), int(i), int(r[0]), int(r[1]), r[2], int(r[3])))
+                evs.append((int(tid), int(i), int(r[0]), int(r[1]), r[2], int(r[3]), r[4]))
     d = dict(kv.split("=") for kv in f[1:])
-    return evs, dfl, int(d["m"]), d.get("loc")
+    return evs, dfl, int(d["m"]), d.get("loc"), int(d["obj"])
 
 def spec_check(case, impl):
     f = case.split(" ")
@@ -177,17 +181,23 @@ def spec_check(case, impl):
         t = parse_tree(f[1])
         addr, ty = unhx(f[2]), unhx(f[3])
         Ls, Ns, Rs = impl.split(" | ")
-        Lev, Ldf, Lm, Lloc = parse_run(Ls[2:], True)
-        Nev, Ndf, Nm, _ = parse_run(Ns[2:], False)
+        Lev, Ldf, Lm, Lloc, Lobj = parse_run(Ls[2:], True)
+        Nev, Ndf, Nm, _, Nobj = parse_run(Ns[2:], False)
     except Exception as e:
         return "crash: unparsable output %s (%s)" % (impl[:120], e)
-    exp, nomatch = expected(t, addr, ty)
+    exp, nomatch = expected(t, addr, ty, frozenset((a, b, c, d) for a, b, c, d, _, _, _ in Lev))
     names = {tb.tid: tb for tb in walk(t)}
     def pname(tid, i):
         return names[tid].ports[i][0].decode("latin1")
     want = [(a, b, c, d) for a, b, c, d, _ in exp]
-    gotL = [(a, b, c, d) for a, b, c, d, _, _ in Lev]
-    gotN = [(a, b, c, d) for a, b, c, d, _, _ in Nev]
+    gotL = [(a, b, c, d) for a, b, c, d, _, _, _ in Lev]
+    gotN = [(a, b, c, d) for a, b, c, d, _, _, _ in Nev]
+    if gotL != gotN:
+        dl = [g for g in gotL if g not in gotN]
+        dn = [g for g in gotN if g not in gotL]
+        g, where = (dl[0], "only with") if dl else ((dn[0], "only without") if dn else (gotL[0], "in another order with"))
+        return ("strategy-dependent: port '%s' (table %d, msg offset %d, obj %d) is invoked %s a location buffer"
+                % (pname(g[0], g[1]), g[0], g[2], g[3], where))
     for tag, got in (("with", gotL), ("without", gotN)):
         for g in got:
             if g not in want:
@@ -201,17 +211,23 @@ def spec_check(case, impl):
             return "order: %s location buffer the callbacks run in another order than the ports" % tag
     if gotL != gotN:
         return "strategy-dependent: the callbacks invoked with and without a location buffer differ"
-    for (a, b, c, d, loc), (_, _, _, _, gl, pok) in zip(exp, Lev):
+    for (a, b, c, d, loc), (_, _, _, _, gl, pok, lf) in zip(exp, Lev):
         if gl != hx(loc):
             return "loc: port '%s' sees loc '%s', its full address is '%s'" % (pname(a, b), unhx(gl).decode("latin1") if gl != "~" else "NULL", loc.decode("latin1"))
         if not pok:
             return "port-pointer: port '%s' does not see its own Port in d.port" % pname(a, b)
-    for (_, _, _, _, gl, pok), (a, b, _, _) in zip(Nev, want):
+        if (lf == "L") != (names[a].ports[b][1] is None):
+            return "leaf-flag: port '%s' reports Port::ports %s" % (pname(a, b), "NULL" if lf == "L" else "non-NULL")
+    for (_, _, _, _, gl, pok, lf), (a, b, _, _) in zip(Nev, want):
         if not pok:
             return "port-pointer: port '%s' does not see its own Port in d.port (no location buffer)" % pname(a, b)
     leaves = sum(1 for (a, b, _, _) in gotL if names[a].ports[b][1] is None)
     if Lm != leaves + len(Ldf):
         return "matches: d.matches = %d after the root dispatch, %d leaf callbacks (+%d default handler) were invoked" % (Lm, leaves, len(Ldf))
+    if Lobj != 1 or Nobj != 1:
+        return "obj-restored: d.obj is %d / %d after the root dispatch (with / without location buffer), it was 1" % (Lobj, Nobj)
+    if Nm != 0:
+        return "matches: d.matches = %d after a root dispatch without location buffer" % Nm
     if Lloc != hx(b"/"):
         return "loc-restored: loc is '%s' after the root dispatch" % Lloc
     for tid, _, _, _ in Ldf + Ndf:
@@ -228,6 +244,14 @@ def spec_check(case, impl):
                 i = name.find(b":")
                 key = name[:i] if i > 0 else name
                 hs.append(len(key) + sum(assoc.get(key[p], 0) for p in pos if p < len(key)))
+            # the hypotheses of the tree theorems (tree_ok): a hashed table has literal
+            # single-component names and non-negative assoc values
+            if any(v < 0 for v in assoc.values()):
+                return "hypothesis: table %d has a negative assoc value" % tb.tid
+            for name, _ in tb.ports:
+                ast = parse_name(name)
+                if len(ast[0]) != 1 or ast[0][0][0] != "L" or b"/" in ast[0][0][1]:
+                    return "hypothesis: table %d is hashed although '%s' is not a literal single-component name" % (tb.tid, name.decode("latin1"))
             if len(set(hs)) != len(hs):
                 return "tables-invalid: table %d is looked up by hash although two of its names hash alike (%s)" % (tb.tid, hs)
     if not Rs.endswith("T=ok"):
@@ -243,7 +267,7 @@ def nontrivial(case, impl):
     return len(t.ports) >= 3 and (("@" in impl.split(" | ")[0]) or len(f) > 4 and f[4] != "exact")
 
 # ---- generator -------------------------------------------------------------------
-TYSPECS = [b"", b"", b"", b":i", b"::i", b":i:f", b":ii", b":", b":s:i", b":if:i"]
+TYSPECS = [b"", b"", b"", b":i", b"::i", b":i:f", b":ii", b":", b":s:i", b":if:i", b":ii:f", b":i:ii"]
 
 def gen_names(rng, n, allow_hash, allow_sub, friendly=False):
     names, seen = [], set()
@@ -354,10 +378,21 @@ def gen_address(rng, t):
         text = b"/" + bytes(rng.choice(b"abc/1") for _ in range(rng.randint(1, 5))); kind = "random"
     else:
         text += rng.choice([b"/", b"/a", b"a/"]); kind = "extra-level"
-    if types is None or rng.random() < 0.2:
-        ty = rng.choice([b"", b"i", b"f", b"T"])
+    if types is None or rng.random() < 0.15:
+        ty = rng.choice([b"", b"i", b"f", b"T", b"ii"])
     else:
-        ty = rng.choice(types) if rng.random() < 0.7 else rng.choice([b"c", b"b", b"cc"])
+        a = rng.choice(types) if rng.random() < 0.5 else types[-1]
+        r = rng.random()
+        if r < 0.4:
+            ty = a                                              # admitted
+        elif r < 0.65:
+            ty = a + rng.choice([b"i", b"f", b"s", b"ii"])      # an extension of an alternative
+        elif r < 0.75 and a:
+            ty = bytes([rng.choice(b"ifsc")]) + a[1:]           # first tag changed
+        elif r < 0.85 and a:
+            ty = a[:-1]                                         # last tag dropped
+        else:
+            ty = rng.choice([b"c", b"b", b"cc", b""])
     return text, ty, kind
 
 def types_free(t, ty):
@@ -393,11 +428,11 @@ def fetch_tables(trees, log):
     return ok
 
 def gen(rng, tier, dist):
-    ntrees = 2500 if tier == "quick" else 40000
+    ntrees = 1400 if tier == "quick" else 25000
     per = 14 if tier == "quick" else 24
     trees = []
     for _ in range(ntrees):
-        maxdepth = rng.choice([1, 1, 2, 2, 3])
+        maxdepth = rng.choice([1, 1, 2, 2, 3, 3, 4])
         trees.append(gen_tree(rng, 0, [0], maxdepth))
     # the findings' witnesses are always there
     for names in ([b"ab", b"ba", b"aa", b"bb"], [b"c", b"a/b"], [b"a", b"bcd"], [b"a", b"a/"]):
@@ -419,8 +454,10 @@ def gen(rng, tier, dist):
         seen = set()
         for _ in range(per):
             addr, ty, kind = gen_address(rng, t)
-            if (addr, ty) in seen or not P5.addr_ok(addr) or types_free(t, ty):
+            if (addr, ty) in seen or not P5.addr_ok(addr):
                 continue
+            if types_free(t, ty):
+                dist["types-extension-of-an-alternative"] = dist.get("types-extension-of-an-alternative", 0) + 1
             seen.add((addr, ty))
             dist["address-" + kind] = dist.get("address-" + kind, 0) + 1
             out.append("disp %s %s %s %s" % (s, hx(addr), hx(ty), kind))
